@@ -226,6 +226,8 @@ def run(ctx):
         ("sparse", "cosine", 2000, dict(n_neighbors=10, low_memory=True, n_jobs=None)),
         ("binary", "jaccard", 2000, dict(n_neighbors=10, low_memory=False, n_jobs=None)),
         ("gaussian", "correlation", 2000, dict(n_neighbors=10, low_memory=True, n_jobs=4)),
+        ("sparse", "euclidean", 2000, dict(n_neighbors=10, low_memory=True, tree_init=False, n_jobs=None)),
+        ("uniform", "euclidean", 2500, dict(n_neighbors=10, low_memory=False, tree_init=False, n_jobs=None)),
     ]
     if ctx.thorough or changed:
         extra = []
